@@ -133,6 +133,11 @@ def run_enum(desc, prop, selector):
         for pp in variants(segs, idx):
             for cfg in configs_for(segs, idx, desc['ncfg']):
                 lang.eval_path(pp, cfg, paths, out, armed, prop, selector(cfg), entry=idx % 3)
+        if len(segs) > 1 and idx % 2 == 0:
+            # the same pattern with every separator written as an escaped slash `\/` (same meaning, never slash-less)
+            pp = A.PathPat(False, segs, False, 1)
+            for cfg in configs_for(segs, idx + 3, 2) + [{'matchbase': True}]:
+                lang.eval_path(pp, dict(cfg, escsep=True), paths, out, armed, prop, selector(cfg), entry=idx % 3, stream='escsep')
         if idx % 997 == s:
             out.sample({'pattern': A.render_path(A.PathPat(False, segs, False, 1)), 'alphabet': alpha + '/', 'paths': len(paths),
                         'stream': 'enum'})
@@ -200,6 +205,11 @@ def run_hyp(desc, prop, selector):
         out.stats['hyp_with_globstar'] += any(isinstance(x, str) for x in segs)
         out.stats['hyp_segments>=3'] += len(segs) >= 3
         out.stats['hyp_with_ext'] += any(A.has_ext(x) for x in seqs)
+        cfg = dict(cfg)
+        if entry == 1 and pp.dup == 1 and len(segs) > 1:
+            cfg['escsep'] = True
+        elif entry == 2:
+            cfg['loose'] = True
         lang.eval_path(pp, cfg, paths, out, armed, prop, selector(cfg), entry=entry, stream='hyp')
         if out.stats['hyp_patterns'] % 53 == 1:
             out.sample({'pattern': A.render_path(pp), 'cfg': cfg, 'paths': len(paths), 'longest': max(paths, key=len), 'stream': 'hyp'})
